@@ -13,14 +13,14 @@ def plan(ctx):
         sets = list(esets(n, 1, m))
         if len(sets) > 200:
             sets = [s for s in sets if len(s) <= 1] + rnd.sample([s for s in sets if len(s) > 1], 160)
-        for i, ch in enumerate(chunks(sets, 8)):
-            obs.append(be_l1_ob(be, k, m, m, ch, w=(2 if k <= 2 else 1), tag="isal", idx=i, timeout=1500))
+        for i, ch in enumerate(chunks(sets, 3)):
+            obs.append(be_l1_ob(be, k, m, m, ch, w=1, tag="isal", idx=i, timeout=1500))
     # larger / corner shapes, sampled sets (gf_gen_rs_matrix is not MDS for every shape: singular survivor sets must give an error)
     big = [(ISAV, 10, 4), (ISAC, 10, 4)] + ([(ISAV, 12, 4), (ISAC, 12, 6), (ISAV, 16, 4), (ISAV, 20, 4), (ISAC, 16, 8)] if thorough else [])
     for be, k, m in big:
         n = k + m
         sets = [tuple(sorted(rnd.sample(range(n), rnd.randint(1, m)))) for _ in range(8 if not thorough else 24)] + [tuple(range(m)), tuple(range(k, n))]
-        for i, ch in enumerate(chunks(sets, 5)):
+        for i, ch in enumerate(chunks(sets, 2)):
             obs.append(be_l1_ob(be, k, m, m, ch, tag="isalbig", idx=i, timeout=1800, mem=12))
     # injected inversion failure: error, never bytes
     for be, k, m in [(ISAV, 2, 1), (ISAC, 3, 2), (ISAV, 4, 2)]:
